@@ -561,7 +561,10 @@ def main(prop, argv):
             ev['coverage']['modelled_not_verified'] = x.get('modelled_not_verified', [])
         except ValueError:
             pass
-    json.dump(ev, open(os.path.join(VERIF, 'evidence', prop + '.json'), 'w'), indent=1)
+    # runs against a deliberately modified tree (seeded changes) must not overwrite the evidence
+    evdir = os.environ.get('VERIF_EVIDENCE_DIR') or os.path.join(VERIF, 'evidence')
+    os.makedirs(evdir, exist_ok=True)
+    json.dump(ev, open(os.path.join(evdir, prop + '.json'), 'w'), indent=1)
     log('%s tier=%s seed=%d: %d cases (%d corr, %d oracle), %d theorems, %s in %.1fs' % (
         prop, tier, a.seed, evaluations, results['corr'], results['prop'], len(thm_names),
         'OK' if status == 0 else 'VIOLATION', time.time() - t0))
